@@ -18,6 +18,8 @@ class Laid:
 
 
 WS = [" ", " ", "  ", "\t", "\n", "\n  ", " \n\t", "\n\n", " \t "]
+# ("" is a file name too: '#line 5 ""' returns to an unnamed main input)
+MARKER_FILES = ["f.c", "g.h", "dir/h.h", "a b.c", ""]
 MARKER_FORMS = ['# %d "%s"', '#line %d "%s"', '# %d "%s" 1', '# %d "%s" 2 3', '  #  %d "%s"', "# %d", "#line %d", "#\tline %d"]
 
 
@@ -77,7 +79,7 @@ def lay_out(toks, c, style="random", filename="f.c", marker_p=0.08, file_change=
             tf, tl, tc = out.pos[j]
             if not toks[j].line:
                 newline_if_needed()
-                fn = tf if c.chance(0.5) else c.choice(["f.c", "g.h", "dir/h.h", "a b.c"])
+                fn = tf if c.chance(0.5) else c.choice(MARKER_FILES)
                 parts.append('# %d "%s"\n' % (tl, fn))
                 if fn != st["file"]:
                     out.nfilechanges += 1
@@ -99,7 +101,7 @@ def lay_out(toks, c, style="random", filename="f.c", marker_p=0.08, file_change=
             form = c.choice(MARKER_FORMS)
             nl = c.int(1, 9999)
             if "%s" in form:
-                fn = c.choice(["f.c", "g.h", "dir/h.h", "a b.c"]) if file_change else st["file"]
+                fn = c.choice(MARKER_FILES) if file_change else st["file"]
                 parts.append(form % (nl, fn) + "\n")
                 if fn != st["file"]:
                     out.nfilechanges += 1
